@@ -25,6 +25,8 @@ def run(ctx):
     ctx.sample(vlib.nth_line(files[0], 1))
     ctx.sample(vlib.nth_line(files[0], 2))
     ctx.absorb(verdicts, files, wlfam.describe_wl)
+    # without any knowledge of how the code reads the source: choices per position sampled under a pseudo-random byte stream
+    wlfam.run_marg(ctx, wlfam.marg_scenarios(), "c04", "C04")
     drawfam.opaque_reads(ctx, rng, 16384)
     biased = drawfam.draw_conformance(ctx, wlfam.bounds_seen(files) | {18325, 10129}, "wordlist recipes")
     if too_few and not ctx.violations:    # (decided only now: a sampler that no longer reads whole words is the draw conformance's business)
